@@ -111,6 +111,21 @@ func init() {
 			}
 			return n
 		},
+		zz + "RunGoroutine": func(fr *frame, a []value) value {
+			k := a[0].(int)
+			for _, g := range fr.i.goq {
+				if g.done {
+					continue
+				}
+				if k == 0 {
+					g.done = true
+					call(fr.i, nil, g.pos, g.fn, g.args)
+					return nil
+				}
+				k--
+			}
+			panic(unsupported("RunGoroutine: no such queued goroutine"))
+		},
 		zz + "NoFork": func(fr *frame, a []value) value {
 			saved := fr.i.noFork
 			fr.i.noFork = true
